@@ -24,7 +24,7 @@ import types
 from pathlib import Path
 
 from vlib import core
-from vlib.core import cbool, clist, cnat, ctuple, cz
+from vlib.core import cbool, ctuple
 from vlib.sched import Explorer, HarnessTimeout, Scheduler, SchedLock, Trace
 
 ID = "C18"
@@ -273,6 +273,19 @@ def glue_reads(kind: str) -> bool:
 
 
 # ------------------------------------------------------------------------ Coq text
+# (the generated case files open Z_scope: plain integer literals keep them small and fast to check)
+def cz(n) -> str:
+    n = int(n)
+    return str(n) if n >= 0 else f"({n})"
+
+
+cnat = cz
+
+
+def clist(xs, f=cz) -> str:
+    return "[" + "; ".join(f(x) for x in xs) + "]"
+
+
 def cop(op) -> str:
     return f"(OWrite {cz(op[1])})" if op[0] == "w" else f"(OFinal {cz(op[1])})"
 
@@ -291,19 +304,35 @@ def ccall(c) -> str:
     return f"(KComplete {cz(c[1])} {cz(c[2])})"
 
 
-def case_text(run: Run, recheck=True) -> str:
+LABEL_CODE = {"LGet": 0, "LSet": 1, "LAcq": 2, "LRel": 3, "LCreate": 4, "LUpload": 5, "LComplete": 6,
+              "LVarGet": 7, "LVarSet": 8, "LVarDel": 9}
+
+
+def call_code(c) -> int:
+    kind = {"create": 0, "upload": 1, "complete": 2}[c[0]]
+    uid, arg = (c[1], 0) if kind == 0 else ((c[2], c[1]) if kind == 1 else (c[1], c[2]))
+    return kind + 4 * (uid + 16 * arg) if 0 <= uid < 16 and arg >= 0 else -1
+
+
+def case_text(run: Run, packed=True) -> str:
     tr = run.trace
-    sched = clist(tr.schedule, cnat)
-    labels = "[" + "; ".join(LABELS.get(k, "LGet") for k in tr.kinds) + "]"
-    calls = "[" + "; ".join(ccall(c) for c in run.canon_calls()) + "]"
+    calls = run.canon_calls()
     outs = clist(run.outcome_codes())
+    codes = [call_code(c) for c in calls]
+    packed = packed and all(c >= 0 for c in codes) and len(run.threads) <= 16
+    if packed:
+        steps = clist([t * 16 + LABEL_CODE[LABELS.get(k, "LGet")] for t, k in zip(tr.schedule, tr.kinds)])
+        ccalls = clist(codes)
+    else:
+        steps = clist(tr.schedule) + " [" + "; ".join(LABELS.get(k, "LGet") for k in tr.kinds) + "]"
+        ccalls = "[" + "; ".join(ccall(c) for c in calls) + "]"
     if run.mode == "local":
         ncreate = sum(1 for c in run.calls if c[2] == "create")
-        return (f"CLocal {cbool(recheck)} {cprogs('local', run.threads)} {sched} {labels} {calls} {outs} "
-                f"{cz(ncreate)} {cbool(run.locked)}")
+        head = "CLocalP" if packed else "CLocal true"
+        return f"{head} {cprogs('local', run.threads)} {steps} {ccalls} {outs} {cz(ncreate)} {cbool(run.locked)}"
     uids = clist([uid_num(u) for u in run.uids])
-    return (f"CCluster {cprogs('cluster', run.threads)} {sched} {labels} {calls} {outs} {uids} "
-            f"{cbool(run.deleted_at is not None)}")
+    return (f"{'CClusterP' if packed else 'CCluster'} {cprogs('cluster', run.threads)} {steps} {ccalls} {outs} "
+            f"{uids} {cbool(run.deleted_at is not None)}")
 
 
 # ------------------------------------------------------------------------ the property, on an observed run
@@ -392,26 +421,26 @@ def plan(tier):
     q = tier == "quick"
     return [
         ("local-2w", "all", None),
-        ("local-2w+f", "glued", None),
-        ("local-2w+f", "all", 1500 if q else None),
-        ("local-2w+f", "random", 400 if q else 8000),
-        ("local-3w", "glued", None),
-        ("local-3w", "all", 1000 if q else 100000),
-        ("local-3w", "random", 400 if q else 8000),
-        ("local-seq", "random", 300 if q else 6000),
+        ("local-2w+f", "glued", 2000 if q else None),
+        ("local-2w+f", "all", 400 if q else 15000),
+        ("local-2w+f", "random", 200 if q else 1500),
+        ("local-3w", "glued", 800 if q else None),
+        ("local-3w", "all", 200 if q else 5000),
+        ("local-3w", "random", 200 if q else 1500),
+        ("local-seq", "random", 150 if q else 1500),
         ("cluster-2w-2workers", "glued", None),
         ("cluster-2w-2workers", "glued-uid", None),
-        ("cluster-2w-2workers", "all", 1500 if q else None),
-        ("cluster-2w-2workers", "random", 400 if q else 8000),
+        ("cluster-2w-2workers", "all", 500 if q else None),
+        ("cluster-2w-2workers", "random", 200 if q else 1500),
         ("cluster-2w-1worker", "glued", None),
         ("cluster-2w-1worker", "glued-uid", None),
-        ("cluster-2w-1worker", "all", 1500 if q else None),
-        ("cluster-2w-1worker", "random", 400 if q else 8000),
-        ("cluster-2w+f", "glued", 3000 if q else 100000),
-        ("cluster-2w+f", "random", 400 if q else 8000),
-        ("cluster-3w", "glued", 3000 if q else None),
-        ("cluster-3w", "random", 400 if q else 8000),
-        ("cluster-seq", "random", 300 if q else 6000),
+        ("cluster-2w-1worker", "all", 500 if q else 5000),
+        ("cluster-2w-1worker", "random", 200 if q else 1500),
+        ("cluster-2w+f", "glued", 800 if q else 8000),
+        ("cluster-2w+f", "random", 200 if q else 1500),
+        ("cluster-3w", "glued", 800 if q else 8000),
+        ("cluster-3w", "random", 200 if q else 1500),
+        ("cluster-seq", "random", 150 if q else 1500),
         ("local-finalise-empty", "random", 20),
         ("cluster-finalise-empty", "random", 20),
     ]
@@ -420,7 +449,7 @@ def plan(tier):
 def summarise(run_: Run, name: str, how: str) -> dict:
     problems = judge(run_)
     return {"name": name, "how": how, "mode": run_.mode, "schedule": run_.trace.schedule,
-            "case": case_text(run_), "problems": problems,
+            "case": case_text(run_), "plain": case_text(run_, packed=False), "problems": problems,
             "replay": run_to_replay(run_, "; ".join(problems)) if problems else None,
             "nthreads": len(run_.threads), "ncreates": sum(1 for c in run_.calls if c[2] == "create"),
             "sample": {"config": name, "mode": run_.mode, "schedule": run_.trace.schedule, "events": run_.trace.kinds,
@@ -444,7 +473,7 @@ def derived(run_: Run, name: str, rng) -> list[dict]:
             if blocked:
                 out.append({"name": name, "how": "blocked", "schedule": tr.schedule[:i] + [-1 - blocked[0]],
                             "case": f"CDisabled {cbool(run_.mode == 'cluster')} {cprogs('cluster', run_.threads)} "
-                                    f"{clist(tr.schedule[:i], cnat)} {cnat(blocked[0])}",
+                                    f"{clist(tr.schedule[:i])} {cnat(blocked[0])}",
                             "problems": [], "replay": None})
                 break
     return out
@@ -737,7 +766,15 @@ def run(out, tier, scratch):
         "cluster theorems hold while the shared Variable has not been deleted (a completed finalise deletes it; finalise depends on all writes in a dask graph)",
         "file system restricted to dst, the parts directory and its part files; part file name is an injective function of the part number",
     ]
-    rng = core.rng("c18")
+    import time
+    t_phase = [time.time()]
+    phases = []
+
+    def phase(name):
+        now = time.time()
+        phases.append(f"{name} {now - t_phase[0]:.1f}s")
+        t_phase[0] = now
+
     cases: list[str] = []
     texts: list[str] = []
     found: dict[str, bool] = {}
@@ -759,7 +796,7 @@ def run(out, tier, scratch):
         if d["problems"]:
             violate(f"c18:init:{d['mode']}", f"{name} schedule {d['schedule']}: " + "; ".join(d["problems"]), d["replay"])
         cases.append(d["case"])
-        texts.append(f"{name} {how} {d['schedule']}")
+        texts.append(f"{name} {how} {d['schedule']} code did: {d.get('plain', '')}")
 
     harness_ok, harness_detail = True, ""
     try:
@@ -789,9 +826,10 @@ def run(out, tier, scratch):
     out.oblige("harness:scheduler (no thread hung; complete enumerations completed)", "correspondence",
                harness_ok, harness_detail)
 
+    phase("schedules")
     # 3. file sink
     base = Path(scratch) / "sink"
-    nsink = 250 if tier == "quick" else 2500
+    nsink = 100 if tier == "quick" else 1200
     for i, (ws, order, pbk) in enumerate(gen_sink_inputs(core.rng("c18-sink"), nsink)):
         ok, detail = p_sink(base, ws, order, pbk)
         out.count("sink:property")
@@ -820,6 +858,7 @@ def run(out, tier, scratch):
             out.case(("sinkm", str(ws2), tuple(order2), keep), True)
     shutil.rmtree(base, ignore_errors=True)
 
+    phase("sink")
     # 4. limits
     for kw in limit_configs(core.rng("c18-limits"), tier):
         ok, detail = p_limits(kw)
@@ -845,14 +884,36 @@ def run(out, tier, scratch):
     if not ok:
         violate("c18:local_lock", detail, {"predicate": "local_lock", "observed": detail})
 
+    phase("limits")
     # 5. the model on everything
-    fails, _log = core.coq_eval_failures(["Base.Result", "Model.S3Init", "Model.FileSink", "Model.S3InitCases"],
-                                         "case", "check", cases, scratch, shard=250)
+    fails = eval_cases(cases, Path(scratch))
     detail = ""
     if fails:
-        detail = f"{len(fails)} of {len(cases)} cases differ; first: " + " | ".join(f"{texts[i]} :: {cases[i]}" for i in fails[:3])
+        detail = f"{len(fails)} of {len(cases)} cases differ; first: " + " | ".join(texts[i] for i in fails[:3])
     out.oblige("correspondence:Model.S3Init/FileSink vs odc.geo.cog._s3/_mpu_fs", "correspondence", not fails, detail)
-    out.notes.append(f"{len(cases)} model evaluations")
+    phase("model evaluation")
+    out.notes.append(f"{len(cases)} model evaluations; wall time per phase: " + ", ".join(phases))
+
+
+def eval_cases(cases, scratch: Path, chunk: int = 250) -> list[int]:
+    """Model evaluation through core.coq_eval_failures, one call per chunk so that the
+    case indices written into the Coq files stay small (they are unary nat literals)."""
+    from concurrent.futures import ThreadPoolExecutor
+
+    req = ["Base.Result", "Model.S3Init", "Model.FileSink", "Model.S3InitCases"]
+
+    def one(k):
+        sub = scratch / f"ev{k}"
+        sub.mkdir(exist_ok=True)
+        part = cases[k:k + chunk]
+        fails, _ = core.coq_eval_failures(req, "case", "check", part, sub, shard=chunk, tag=f"cases{k}", jobs=1)
+        return [k + i for i in fails]
+
+    with ThreadPoolExecutor(max_workers=max(2, min(16, os.cpu_count() or 4))) as ex:
+        out = []
+        for r in ex.map(one, range(0, len(cases), chunk)):
+            out += r
+    return sorted(out)
 
 
 def replay_one(rp, scratch=None):
